@@ -259,10 +259,20 @@ def try_cxx(src, flags=(), compiler="g++", deps=(), name=None, includes=(), link
     else:
         tmp_bin = out + ".tmp-" + os.urandom(6).hex()
         cmd += [src, "-o", tmp_bin] + list(link)
-    try:
-        p = subprocess.run(cmd, stdout=subprocess.PIPE, stderr=subprocess.STDOUT, text=True, timeout=timeout, errors="replace")
-    except subprocess.TimeoutExpired:
-        raise InfraError("compiler timeout: %s" % src)
+    def once():
+        try:
+            return subprocess.run(cmd, stdout=subprocess.PIPE, stderr=subprocess.STDOUT, text=True, timeout=timeout, errors="replace")
+        except subprocess.TimeoutExpired:
+            raise InfraError("compiler timeout: %s" % src)
+    p = once()
+    # A failure that the compiler locates in an installed system header (or a compiler that died) may be the
+    # environment and not the code (seen once under heavy load: "source file is not valid UTF-8" for an intact
+    # /usr/include/c++/12/array): such a failure only counts if a second run repeats it.
+    if p.returncode != 0 and (p.returncode < 0 or re.search(r"^/usr/[^\n]*: (fatal )?error:|internal compiler error|PLEASE submit a bug report",
+                                                            p.stdout, re.M)):
+        log("compile failure involving a system header - compiling once more: %s" % " ".join(cmd[:3] + cmd[-2:]))
+        time.sleep(1.0)
+        p = once()
     if syntax_only:
         # a failure caused by a missing file is an infrastructure glitch, not a
         # property of the source: never remembered
